@@ -116,12 +116,9 @@ func (k Keeper) ReturnSlashedTokens(ctx context.Context, amt math.Int, hashId []
 		// if not, set to unbonded
 		// this causes the delegate method (in staking module) to not transfer tokens since tokens
 		// are transferred via dispute module where ReturnSlashedTokens is called
-		var tokenSrc stakingtypes.BondStatus
-		if val.IsBonded() {
-			tokenSrc = stakingtypes.Bonded
-		} else {
-			tokenSrc = stakingtypes.Unbonded
-		}
+		// the dispute module pays the whole returned amount into the bonded pool, so the tokens' source is always
+		// the bonded pool; for a validator that is not bonded Delegate itself moves them on to the not-bonded pool
+		tokenSrc := stakingtypes.Bonded
 		_, err = k.stakingKeeper.Delegate(ctx, delAddr, shareAmt.TruncateInt(), tokenSrc, val, false) // false means to not subtract tokens from an account
 		if err != nil {
 			return err
